@@ -17,7 +17,7 @@ LEVEL = "model_checking"
 RULE = (
     "all ordered pairs of non-empty masks of G1(6,1), G2(2,3,1), G2(3,1,1), G3(1,2,3,1), G3(2,1,3,1), G3(2,3,1,1) with embedding in frames of width 1 and 3 and "
     "through the MATCHED pipeline; all pairs of G2(3,3,1) x 128 refs, G2(2,4,1), G3(2,2,2,1) x 128 refs, G3(1,3,3,1) x 64 refs (direct call + frame 1); every pair also with the masks in Fortran order, as transposed views and with negative / non-unit strides (same and mixed); "
-    "far family: every pair of non-empty subsets (<= 4 voxels in 1-D/2-D, <= 2 in 3-D) of the 2^d corner block at the origin and of the 2^d corner block at each of the 2^d corners of arrays (4,4) (5,5) (3,7) (10,10) (2,12) (3,3,3) (4,4,4) (2,5,5) (6,6,6) (12,) [thorough also (16,16) (7,9) (3,20) (8,8,8) (3,4,9) (30,)] - the nearest partner lies beyond the longest edge; diagonal staircases of length 4..12 (2-D) / 4..7 (3-D) against blobs at either end and in the off corners; each as bool, swapped, uint8 and in a frame of width 1; "
+    "far family: every pair of non-empty subsets (<= 4 voxels in 1-D/2-D, <= 2 in 3-D) of the 2^d corner block at the origin and of the 2^d corner block at each of the 2^d corners of arrays (4,4) (5,5) (3,7) (10,10) (2,12) (3,3,3) (4,4,4) (2,5,5) (6,6,6) (12,) and the long arrays (130,) (200,) (300,) (2,190) (260,2) (2,2,190) (70000,) [thorough also (16,16) (7,9) (3,20) (8,8,8) (3,4,9) (30,) (190,190) (300,2,2) (2,66000)] - the nearest partner lies beyond the longest edge, and in the long arrays beyond 127 / 181 / 255 / 65535 voxels along one axis; diagonal staircases of length 4..12 (2-D) / 4..7 (3-D) against blobs at either end and in the off corners; each as bool, swapped, uint8 and in a frame of width 1; "
     "thorough: G2(3,3,1)^2, G3(2,2,2,1)^2, G2(3,4,1) x 256, G3(2,2,3,1) x 128, G1(8,1)^2. non-trivial = the two borders differ; distinct by mask pair"
 )
 ASSUMPTIONS = ["brute-force distances with math.sqrt/fsum; comparison to 1e-9 relative", "masks given as bool and as uint8/int64 0-1 arrays"]
@@ -49,8 +49,9 @@ def blocks(tier):
     return B
 
 
-FAR_SHAPES = [(4, 4), (5, 5), (3, 7), (10, 10), (2, 12), (3, 3, 3), (4, 4, 4), (2, 5, 5), (6, 6, 6), (12,)]
-FAR_SHAPES_THOROUGH = [(16, 16), (7, 9), (3, 20), (8, 8, 8), (3, 4, 9), (30,)]
+# the long shapes put the nearest partner beyond 127 / 181 / 255 / 65 535 voxels along one axis (narrow offset or squared-offset types)
+FAR_SHAPES = [(4, 4), (5, 5), (3, 7), (10, 10), (2, 12), (3, 3, 3), (4, 4, 4), (2, 5, 5), (6, 6, 6), (12,), (130,), (200,), (300,), (2, 190), (260, 2), (2, 2, 190), (70000,)]
+FAR_SHAPES_THOROUGH = [(16, 16), (7, 9), (3, 20), (8, 8, 8), (3, 4, 9), (30,), (190, 190), (300, 2, 2), (2, 66000)]
 
 
 def _corner_subsets(shape, corner, maxk):
